@@ -38,6 +38,7 @@ import AgVerif.Proof.DexPerm
 import AgVerif.Proof.DexGeom
 import AgVerif.Proof.DexFinal
 import AgVerif.Proof.DexXFrame
+import AgVerif.Proof.DexXFinal
 namespace AgVerif.C07
 open AgVerif.LoadOrder AgVerif.Gen.MapDeps
 
@@ -355,6 +356,17 @@ theorem stepX_frame (file : Bytes) (e : MapEntry) (cx₁ cx₂ : CMx)
 theorem maplistX_perm_invariant (file : Bytes) (es₁ es₂ : List MapEntry) (hp : es₁.Perm es₂)
     (hd : (es₁.map (·.type)).Nodup) : loadEntriesX file es₁ = loadEntriesX file es₂ :=
   maplist_perm_invariant "KeyError" (stepX file) {} es₁ es₂ hp hd
+
+/-- why the load order is right for the extended item parsers too: when MapList.__init__ runs the
+    parser of an entry (e.g. the encoded arrays, whose values are resolved eagerly), the tables of all
+    transitively declared dependencies of its type are already final, and parsing it against the final
+    state writes the same table.  For every file, map list (duplicate types allowed) and initial state. -/
+theorem depsX_final_when_read (file : Bytes) (es pre post : List MapEntry) (e : MapEntry) (init s fin : CMx)
+    (hord : orderEntries loadOrder es = some (pre ++ e :: post))
+    (hpre : foldSteps (stepX file) init pre = .ok s)
+    (hfin : foldSteps (stepX file) init (pre ++ e :: post) = .ok fin) :
+    agreeOnX (closure deps e.type) s fin ∧ FrameOKX file e s fin :=
+  depsX_final file es pre post e init s fin hord hpre hfin
 
 example : readsX 0x2005 = [0x0001, 0x2002, 0x0002, 0x0004, 0x0005] ∧ 0x2005 ∈ readsX 0x0006 ∧ 0x2006 ∈ readsX 0x0006 ∧
     (∀ D ∈ readsX 0x2005, D ∈ closure deps 0x2005) := by decide +kernel
